@@ -83,6 +83,7 @@ static std::string handle(const std::string& verb, const std::vector<std::string
     {
         if (verb == "asm") { return vh::verb_asm(f); }
         else if (verb == "lex") { return vh::verb_lex(f); }
+        else if (verb == "pretty") { return vh::verb_pretty(f); }
         else if (verb == "run") { return vh::verb_run(f, false); }
         else if (verb == "trace") { return vh::verb_run(f, true); }
         else if (verb == "start") { return vh::verb_start(f); }
